@@ -133,7 +133,7 @@ func Run(c Case) core.Result {
 	all := c.Err.BuildAll()
 	var sink bytes.Buffer
 	_ = wire.ErrorCode(buffer.NewWriter(quiet, &sink), all[len(all)-1])
-	inner := Case{Err: &script.ErrSpec{Base: c.Err.Base, Layers: c.Err.Layers[:k]}, Path: "direct"}
+	inner := Case{Err: &script.ErrSpec{Base: c.Err.Base, Wraps: c.Err.Wraps, Layers: c.Err.Layers[:k]}, Path: "direct"}
 	r2 := runOne(inner, all[k])
 	if r2.Violation != "" {
 		r2.Sig = "C17/inner-value-changed/" + r2.Sig
